@@ -347,6 +347,13 @@ func main() {
 		engineOrder(f, res)
 	case "sched":
 		engineSched(f, res)
+	case "race":
+		res.Exhaustive = false
+		res.Rule = "free-running repetitions of the schedule scenarios' bodies under the Go race detector (supporting evidence: the cooperative scheduler's hand-offs hide unsynchronised accesses from it); not exhaustive"
+		n := freeRun(f, res, 300)
+		res.Evaluations, res.States, res.Transitions, res.Distinct = int64(n), int64(n), int64(n), 2
+		res.Bounds["free_running_runs"] = n
+		res.Sample(map[string]any{"scenario": "every schedule scenario of this property", "mode": "free-running under -race, 300 repetitions each"})
 	default:
 		rep.Fatal(f, "unknown engine %q", f.Engine)
 	}
